@@ -19,9 +19,6 @@ Import ListNotations.
 From Mds Require Gen.MlinkFacts Gen.MlinkList Gen.MlinkQueue.
 Local Open Scope Z_scope.
 
-Module F := Gen.MlinkFacts.
-Module L := Gen.MlinkList.
-Module Q := Gen.MlinkQueue.
 
 Inductive link := Nil | Ptr (a : nat).
 
@@ -87,20 +84,20 @@ Fixpoint invalidate (fuel : nat) (e : link) (s : cst) : res cst unit :=
   match fuel with
   | O => OutOfFuel
   | S f =>
-    if F.invalidate_cond (enc e) null then
+    if MlinkFacts.invalidate_cond (enc e) null then
       bind (deref e s) (fun a s =>
       bind (load a s) (fun c s =>
-      let next := dec (F.invalidate_next (enc (snd c))) in
-      bind (store a (fst c, dec (F.invalidate_newlink (enc e))) s) (fun _ s =>
-      invalidate f (dec (F.invalidate_adv (enc next))) s)))
+      let next := dec (MlinkFacts.invalidate_next (enc (snd c))) in
+      bind (store a (fst c, dec (MlinkFacts.invalidate_newlink (enc e))) s) (fun _ s =>
+      invalidate f (dec (MlinkFacts.invalidate_adv (enc next))) s)))
     else Ok tt s
   end.
 
 (* func (e *entry[T]) checkValid() *entry[T] { if e.link == e { panic("invalid cursor") }; return e } *)
 Definition check_valid (e : nat) (s : cst) : res cst nat :=
   bind (load e s) (fun c s =>
-  if F.checkValid_cond (enc (snd c)) (Z.of_nat e) then Panic InvalidCursor s
-  else deref (dec (F.checkValid_ret (Z.of_nat e))) s).
+  if MlinkFacts.checkValid_cond (enc (snd c)) (Z.of_nat e) then Panic InvalidCursor s
+  else deref (dec (MlinkFacts.checkValid_ret (Z.of_nat e))) s).
 
 (* c.pred.checkValid() when the method has that call, plain c.pred otherwise *)
 Definition checked (ncalls : Z) (s : cst) : res cst nat :=
@@ -110,15 +107,15 @@ Definition checked (ncalls : Z) (s : cst) : res cst nat :=
 
 (* func (c *Cursor[T]) AtEnd() bool { return c.pred.checkValid().link == nil } *)
 Definition cur_at_end (s : cst) : res cst bool :=
-  bind (checked L.atend_ncalls_check s) (fun e s =>
+  bind (checked MlinkList.atend_ncalls_check s) (fun e s =>
   bind (load e s) (fun c s =>
-  Ok (L.atend_ret (enc (snd c)) null) s)).
+  Ok (MlinkList.atend_ret (enc (snd c)) null) s)).
 
 (* if c.AtEnd() { return zero }; return c.pred.checkValid().link.X *)
 Definition cur_get (s : cst) : res cst T :=
   bind (cur_at_end s) (fun ae s =>
-  if L.get_atend ae then Ok zero s else
-  bind (checked L.get_ncalls_check s) (fun e s =>
+  if MlinkList.get_atend ae then Ok zero s else
+  bind (checked MlinkList.get_ncalls_check s) (fun e s =>
   bind (load e s) (fun c s =>
   bind (deref (snd c) s) (fun t s =>
   bind (load t s) (fun ct s =>
@@ -127,12 +124,12 @@ Definition cur_get (s : cst) : res cst T :=
 (* if c.AtEnd() { c.pred.link = &entry[T]{X: v} } else { c.pred.checkValid().link.X = v } *)
 Definition cur_set (v : T) (s : cst) : res cst unit :=
   bind (cur_at_end s) (fun ae s =>
-  if L.set_atend ae then
+  if MlinkList.set_atend ae then
     bind (alloc (v, Nil) s) (fun n s =>
     bind (load (snd s) s) (fun cp s =>
     store (snd s) (fst cp, Ptr n) s))
   else
-    bind (checked L.set_ncalls_check s) (fun e s =>
+    bind (checked MlinkList.set_ncalls_check s) (fun e s =>
     bind (load e s) (fun c s =>
     bind (deref (snd c) s) (fun t s =>
     bind (load t s) (fun ct s =>
@@ -141,28 +138,28 @@ Definition cur_set (v : T) (s : cst) : res cst unit :=
 (* if c.AtEnd() { return false }; c.pred = c.pred.link; return !c.AtEnd() *)
 Definition cur_next (s : cst) : res cst bool :=
   bind (cur_at_end s) (fun ae s =>
-  if L.next_atend ae then Ok L.next_ret_end s else
+  if MlinkList.next_atend ae then Ok MlinkList.next_ret_end s else
   bind (load (snd s) s) (fun cp s =>
-  bind (deref (dec (L.next_newpred (enc (snd cp)))) s) (fun p' s =>
+  bind (deref (dec (MlinkList.next_newpred (enc (snd cp)))) s) (fun p' s =>
   bind (set_pred p' s) (fun _ s =>
   bind (cur_at_end s) (fun ae2 s =>
-  Ok (L.next_ret ae2) s))))).
+  Ok (MlinkList.next_ret ae2) s))))).
 
 (* added := &entry[T]{X: v, link: c.pred.checkValid().link}; c.pred.link = added *)
 Definition cur_push (v : T) (s : cst) : res cst unit :=
-  bind (checked L.push_ncalls_check s) (fun e s =>
+  bind (checked MlinkList.push_ncalls_check s) (fun e s =>
   bind (load e s) (fun c s =>
   bind (alloc (v, snd c) s) (fun added s =>
   bind (load (snd s) s) (fun cp s =>
-  store (snd s) (fst cp, dec (L.push_newlink (Z.of_nat added))) s)))).
+  store (snd s) (fst cp, dec (MlinkList.push_newlink (Z.of_nat added))) s)))).
 
 (* for _, v := range vs { c.Push(v); c.Next() } *)
 Fixpoint cur_add (vs : list T) (s : cst) : res cst unit :=
   match vs with
   | [] => Ok tt s
   | v :: vs' =>
-    bind (if called L.add_ncalls_push then cur_push v s else Ok tt s) (fun _ s =>
-    bind (if called L.add_ncalls_next then cur_next s else Ok false s) (fun _ s =>
+    bind (if called MlinkList.add_ncalls_push then cur_push v s else Ok tt s) (fun _ s =>
+    bind (if called MlinkList.add_ncalls_next then cur_next s else Ok false s) (fun _ s =>
     cur_add vs' s))
   end.
 
@@ -171,28 +168,28 @@ Fixpoint cur_add (vs : list T) (s : cst) : res cst unit :=
    c.pred.link.link = c.pred.link; c.pred.link = next; return val *)
 Definition cur_remove (s : cst) : res cst T :=
   bind (cur_at_end s) (fun ae s =>
-  if L.remove_atend ae then Ok zero s else
+  if MlinkList.remove_atend ae then Ok zero s else
   bind (load (snd s) s) (fun cp s =>
   bind (deref (snd cp) s) (fun t s =>
   bind (load t s) (fun ct s =>
   let val := fst ct in
-  let next := dec (L.remove_next (enc (snd ct))) in
-  bind (store t (fst ct, dec (L.remove_selflink (enc (snd cp)))) s) (fun _ s =>
+  let next := dec (MlinkList.remove_next (enc (snd ct))) in
+  bind (store t (fst ct, dec (MlinkList.remove_selflink (enc (snd cp)))) s) (fun _ s =>
   bind (load (snd s) s) (fun cp' s =>
-  bind (store (snd s) (fst cp', dec (L.remove_newlink (enc next))) s) (fun _ s =>
+  bind (store (snd s) (fst cp', dec (MlinkList.remove_newlink (enc next))) s) (fun _ s =>
   Ok val s))))))).
 
 (* c.pred.checkValid().link.invalidate(); c.pred.link = nil
-   [nchk] is the number of checkValid calls in the method: L.truncate_ncalls_check for the
+   [nchk] is the number of checkValid calls in the method: MlinkList.truncate_ncalls_check for the
    working tree; 0 is the code before repair e389bb4 (F7). *)
 Definition cur_truncate_gen (nchk : Z) (s : cst) : res cst unit :=
   bind (checked nchk s) (fun e s =>
   bind (load e s) (fun c s =>
-  bind (if called L.truncate_ncalls_invalidate then invalidate (S (length (fst s))) (snd c) s else Ok tt s) (fun _ s =>
+  bind (if called MlinkList.truncate_ncalls_invalidate then invalidate (S (length (fst s))) (snd c) s else Ok tt s) (fun _ s =>
   bind (load (snd s) s) (fun cp s =>
-  store (snd s) (fst cp, dec (L.truncate_newlink null)) s)))).
+  store (snd s) (fst cp, dec (MlinkList.truncate_newlink null)) s)))).
 
-Definition cur_truncate := cur_truncate_gen L.truncate_ncalls_check.
+Definition cur_truncate := cur_truncate_gen MlinkList.truncate_ncalls_check.
 Definition cur_truncate_pinned := cur_truncate_gen 0.
 
 (* ---- List methods (list.go); lst.cfirst() is the cursor state (h, 0) ---- *)
@@ -201,14 +198,14 @@ Definition cfirst (h : heap) : cst := (h, O).
 
 (* return lst.first.link == nil *)
 Definition list_is_empty (h : heap) : res cst bool :=
-  bind (load O (cfirst h)) (fun c s => Ok (L.isempty_ret (enc (snd c)) null) s).
+  bind (load O (cfirst h)) (fun c s => Ok (MlinkList.isempty_ret (enc (snd c)) null) s).
 
 (* lst.first.link.invalidate(); lst.first.link = nil *)
 Definition list_clear (h : heap) : res cst unit :=
   bind (load O (cfirst h)) (fun c s =>
-  bind (if called L.clear_ncalls_invalidate then invalidate (S (length (fst s))) (snd c) s else Ok tt s) (fun _ s =>
+  bind (if called MlinkList.clear_ncalls_invalidate then invalidate (S (length (fst s))) (snd c) s else Ok tt s) (fun _ s =>
   bind (load O s) (fun c' s =>
-  store O (fst c', dec (L.clear_newlink null)) s))).
+  store O (fst c', dec (MlinkList.clear_newlink null)) s))).
 
 (* for ; !cur.AtEnd(); cur.Next() { if n == 0 { break }; n-- } *)
 Fixpoint at_loop (fuel : nat) (n : Z) (s : cst) : res cst unit :=
@@ -216,18 +213,18 @@ Fixpoint at_loop (fuel : nat) (n : Z) (s : cst) : res cst unit :=
   | O => OutOfFuel
   | S f =>
     bind (cur_at_end s) (fun ae s =>
-    if L.at_cond ae then
-      if L.at_found n then Ok tt s
+    if MlinkList.at_cond ae then
+      if MlinkList.at_found n then Ok tt s
       else
-        let n := L.at_dec n in
-        bind (if called L.at_ncalls_next then cur_next s else Ok false s) (fun _ s =>
+        let n := MlinkList.at_dec n in
+        bind (if called MlinkList.at_ncalls_next then cur_next s else Ok false s) (fun _ s =>
         at_loop f n s)
     else Ok tt s)
   end.
 
 (* if n < 0 { panic("index out of range") }; cur := lst.cfirst(); <loop>; return &cur *)
 Definition list_at (n : Z) (h : heap) : res cst unit :=
-  if L.at_neg n then Panic IndexRange (cfirst h)
+  if MlinkList.at_neg n then Panic IndexRange (cfirst h)
   else at_loop (S (length h)) n (cfirst h).
 
 (* for cur.pred.link.link != nil { cur.Next() } *)
@@ -238,8 +235,8 @@ Fixpoint last_loop (fuel : nat) (s : cst) : res cst unit :=
     bind (load (snd s) s) (fun cp s =>
     bind (deref (snd cp) s) (fun t s =>
     bind (load t s) (fun ct s =>
-    if L.last_cond (enc (snd ct)) null then
-      bind (if called L.last_ncalls_next then cur_next s else Ok false s) (fun _ s =>
+    if MlinkList.last_cond (enc (snd ct)) null then
+      bind (if called MlinkList.last_ncalls_next then cur_next s else Ok false s) (fun _ s =>
       last_loop f s)
     else Ok tt s)))
   end.
@@ -247,12 +244,12 @@ Fixpoint last_loop (fuel : nat) (s : cst) : res cst unit :=
 (* cur := lst.cfirst(); if !cur.AtEnd() { <loop> }; return &cur *)
 Definition list_last (h : heap) : res cst unit :=
   bind (cur_at_end (cfirst h)) (fun ae s =>
-  if L.last_nonempty ae then last_loop (S (length h)) s else Ok tt s).
+  if MlinkList.last_nonempty ae then last_loop (S (length h)) s else Ok tt s).
 
 (* c := lst.Last(); c.Next(); return c *)
 Definition list_end (h : heap) : res cst unit :=
-  bind (if called L.end_ncalls_last then list_last h else Ok tt (cfirst h)) (fun _ s =>
-  bind (if called L.end_ncalls_next then cur_next s else Ok false s) (fun _ s =>
+  bind (if called MlinkList.end_ncalls_last then list_last h else Ok tt (cfirst h)) (fun _ s =>
+  bind (if called MlinkList.end_ncalls_next then cur_next s else Ok false s) (fun _ s =>
   Ok tt s)).
 
 (* for !cur.AtEnd() { if f(cur.Get()) { break }; cur.Next() } *)
@@ -261,11 +258,11 @@ Fixpoint find_loop (fuel : nat) (f : T -> bool) (s : cst) : res cst unit :=
   | O => OutOfFuel
   | S fl =>
     bind (cur_at_end s) (fun ae s =>
-    if L.find_cond ae then
+    if MlinkList.find_cond ae then
       bind (cur_get s) (fun v s =>
-      if L.find_hit (f v) then Ok tt s
+      if MlinkList.find_hit (f v) then Ok tt s
       else
-        bind (if called L.find_ncalls_next then cur_next s else Ok false s) (fun _ s =>
+        bind (if called MlinkList.find_ncalls_next then cur_next s else Ok false s) (fun _ s =>
         find_loop fl f s))
     else Ok tt s)
   end.
@@ -280,11 +277,11 @@ Fixpoint each_loop (fuel : nat) (f : T -> bool) (s : cst) : res cst (list T) :=
   | O => OutOfFuel
   | S fl =>
     bind (cur_at_end s) (fun ae s =>
-    if L.each_cond ae then
+    if MlinkList.each_cond ae then
       bind (cur_get s) (fun v s =>
-      if L.each_stop (f v) then Ok [v] s
+      if MlinkList.each_stop (f v) then Ok [v] s
       else
-        bind (if called L.each_ncalls_next then cur_next s else Ok false s) (fun _ s =>
+        bind (if called MlinkList.each_ncalls_next then cur_next s else Ok false s) (fun _ s =>
         bind (each_loop fl f s) (fun vs s => Ok (v :: vs) s)))
     else Ok [] s)
   end.
@@ -295,14 +292,14 @@ Definition list_each (f : T -> bool) (h : heap) : res cst (list T) :=
 (* for range lst.Each { n++ } *)
 Definition list_len (h : heap) : res cst Z :=
   bind (list_each (fun _ => true) h) (fun vs s =>
-  Ok (fold_left (fun n _ => L.len_inc n) vs 0) s).
+  Ok (fold_left (fun n _ => MlinkList.len_inc n) vs 0) s).
 
 (* cur := lst.At(n); return cur.Get(), !cur.AtEnd() *)
 Definition list_peek (n : Z) (h : heap) : res cst (T * bool) :=
-  bind (list_at (L.peek_at_arg n) h) (fun _ s =>
+  bind (list_at (MlinkList.peek_at_arg n) h) (fun _ s =>
   bind (cur_get s) (fun v s =>
   bind (cur_at_end s) (fun ae s =>
-  Ok (v, L.peek_ok ae) s))).
+  Ok (v, MlinkList.peek_ok ae) s))).
 
 (* ---- histories over one List and any number of cursors ---- *)
 
@@ -407,7 +404,7 @@ Record qstate := { qheap : heap; qback : link; qsize : Z }.
 
 (* q := new(Queue[T]); q.back = q.list.cfirst() *)
 Definition new_queue : qstate :=
-  {| qheap := [(zero, Nil)]; qback := if called Q.qnew_ncalls_cfirst then Ptr O else Nil; qsize := 0 |}.
+  {| qheap := [(zero, Nil)]; qback := if called MlinkQueue.qnew_ncalls_cfirst then Ptr O else Nil; qsize := 0 |}.
 (* var q Queue[T] *)
 Definition zero_queue : qstate := {| qheap := [(zero, Nil)]; qback := Nil; qsize := 0 |}.
 
@@ -423,13 +420,13 @@ Definition qfail (q : qstate) {A} (r : res cst A) : qstate * out :=
 
 (* if q.back.pred == nil { q.back = q.list.cfirst() }; q.back.Add(v); q.size++ *)
 Definition q_add (v : T) (q : qstate) : qstate * out :=
-  let back := if Q.qadd_nopred (enc (qback q)) null
-              then (if called Q.qadd_ncalls_cfirst then Ptr O else qback q) else qback q in
+  let back := if MlinkQueue.qadd_nopred (enc (qback q)) null
+              then (if called MlinkQueue.qadd_ncalls_cfirst then Ptr O else qback q) else qback q in
   match back with
   | Nil => ({| qheap := qheap q; qback := back; qsize := qsize q |}, RPanic NilDeref)
   | Ptr p =>
-    match (if called Q.qadd_ncalls_add then cur_add [v] (qheap q, p) else Ok tt (qheap q, p)) with
-    | Ok _ s => ({| qheap := fst s; qback := Ptr (snd s); qsize := Q.qadd_size (qsize q) |}, RUnit)
+    match (if called MlinkQueue.qadd_ncalls_add then cur_add [v] (qheap q, p) else Ok tt (qheap q, p)) with
+    | Ok _ s => ({| qheap := fst s; qback := Ptr (snd s); qsize := MlinkQueue.qadd_size (qsize q) |}, RUnit)
     | Panic k s => ({| qheap := fst s; qback := Ptr (snd s); qsize := qsize q |}, RPanic k)
     | OutOfFuel => (q, RHang)
     | BadAddr => (q, RBad)
@@ -443,16 +440,16 @@ Definition q_pop (q : qstate) : qstate * out :=
   | Ok v s =>
     match cur_at_end s with
     | Ok ae s =>
-      if Q.qpop_atend ae then ({| qheap := fst s; qback := qback q; qsize := qsize q |}, RValBool v Q.qpop_ret_empty)
+      if MlinkQueue.qpop_atend ae then ({| qheap := fst s; qback := qback q; qsize := qsize q |}, RValBool v MlinkQueue.qpop_ret_empty)
       else
-        match (if called Q.qpop_ncalls_remove then cur_remove s else Ok zero s) with
+        match (if called MlinkQueue.qpop_ncalls_remove then cur_remove s else Ok zero s) with
         | Ok _ s =>
-          let size := Q.qpop_size (qsize q) in
+          let size := MlinkQueue.qpop_size (qsize q) in
           match list_is_empty (fst s) with
           | Ok e s' =>
             ({| qheap := fst s';
-                qback := if Q.qpop_reset e then Ptr O else qback q;
-                qsize := size |}, RValBool v Q.qpop_ret_ok)
+                qback := if MlinkQueue.qpop_reset e then Ptr O else qback q;
+                qsize := size |}, RValBool v MlinkQueue.qpop_ret_ok)
           | r => qfail {| qheap := fst s; qback := qback q; qsize := size |} r
           end
         | r => qfail q r
@@ -473,16 +470,16 @@ Definition qstep (q : qstate) (o : qop) : qstate * out :=
   | QAdd v => q_add v q
   | QPop => q_pop q
   (* v, _ := q.list.Peek(0); return v *)
-  | QFront => q_on_list q (list_peek Q.qfront_arg (qheap q)) (fun vb => RVal (fst vb))
-  | QPeek n => q_on_list q (list_peek (Q.qpeek_arg n) (qheap q)) (fun vb => RValBool (fst vb) (snd vb))
+  | QFront => q_on_list q (list_peek MlinkQueue.qfront_arg (qheap q)) (fun vb => RVal (fst vb))
+  | QPeek n => q_on_list q (list_peek (MlinkQueue.qpeek_arg n) (qheap q)) (fun vb => RValBool (fst vb) (snd vb))
   | QEach f => q_on_list q (list_each f (qheap q)) RList
   (* q.list.Clear(); q.back = q.list.cfirst(); q.size = 0 *)
   | QClear =>
-    match (if called Q.qclear_ncalls_clear then list_clear (qheap q) else Ok tt (cfirst (qheap q))) with
-    | Ok _ s => ({| qheap := fst s; qback := if called Q.qclear_ncalls_cfirst then Ptr O else qback q; qsize := Q.qclear_size |}, RUnit)
+    match (if called MlinkQueue.qclear_ncalls_clear then list_clear (qheap q) else Ok tt (cfirst (qheap q))) with
+    | Ok _ s => ({| qheap := fst s; qback := if called MlinkQueue.qclear_ncalls_cfirst then Ptr O else qback q; qsize := MlinkQueue.qclear_size |}, RUnit)
     | r => qfail q r
     end
-  | QLen => (q, RInt (Q.qlen_ret (qsize q)))
+  | QLen => (q, RInt (MlinkQueue.qlen_ret (qsize q)))
   | QIsEmpty => q_on_list q (list_is_empty (qheap q)) RBool
   end.
 
@@ -504,3 +501,28 @@ Arguments RPanic {T} k.
 Arguments RHang {T}.
 Arguments RBad {T}.
 Arguments RNoCursor {T}.
+Arguments OAt {T} n.
+Arguments OLast {T}.
+Arguments OEnd {T}.
+Arguments OFind {T} f.
+Arguments OGet {T} k.
+Arguments OSet {T} k v.
+Arguments OAtEnd {T} k.
+Arguments ONext {T} k.
+Arguments OPush {T} k v.
+Arguments OAdd {T} k vs.
+Arguments ORemove {T} k.
+Arguments OTruncate {T} k.
+Arguments OClear {T}.
+Arguments OPeek {T} n.
+Arguments OEach {T} f.
+Arguments OLen {T}.
+Arguments OIsEmpty {T}.
+Arguments QAdd {T} v.
+Arguments QPop {T}.
+Arguments QFront {T}.
+Arguments QPeek {T} n.
+Arguments QEach {T} f.
+Arguments QClear {T}.
+Arguments QLen {T}.
+Arguments QIsEmpty {T}.
